@@ -117,7 +117,7 @@ func Explore[E any](r *vreport.Report, cfg Config[E]) Result {
 					if res.States <= 400000 {
 						r.Distinct("state_hashes", c)
 					}
-					if res.States%9973 == 1 {
+					if res.States == 2 || res.States == 40 || res.States%9973 == 1 {
 						r.Sample(map[string]any{"config": cfg.Name, "history": nh})
 					}
 				}
